@@ -2,7 +2,7 @@
    of F5), which compared iteration numbers as strings at three sites. *)
 From Coq Require Import String List NArith.
 Import ListNotations.
-Require Import V.Lib.PyStr V.Loop.Model V.Loop.Proofs V.Loop.Edges.
+Require Import V.Lib.PyStr V.Loop.Model V.Loop.Proofs V.Loop.Edges V.Loop.Subst.
 Open Scope N_scope.
 
 (* F5 (repaired by a fix: commit): with the string key and k = 10 the newest instance is iteration 9, an outside
@@ -47,3 +47,15 @@ Proof.
   - vm_compute. reflexivity.
 Qed.
 Print Assumptions C05_agg_loop_binding_forward_edge_refuted.
+
+(* F5c (open): "each reference on a command line is rewritten to its own instance" is false of the sequential
+   substitution when the later reference text occurs word-bounded inside the earlier one: looped components
+   "a-b" and "b", command line "a-b:ref b:ref", iteration 0 at stage 1. *)
+Theorem C05_sequential_substitution_refuted :
+  exists (n1 n2 : string) (S i : N), In (n1, n2) name_pairs /\ overlap n1 n2 = true /\
+    rewritten S i n1 n2 = "stage1.0#a-stage1.0#b:ref b:ref"%string /\
+    intended S i n1 n2 = "stage1.0#a-b:ref stage1.0#b:ref"%string.
+Proof.
+  exists "a-b"%string, "b"%string, 1%N, 0%N. split; [vm_compute; tauto|]. vm_compute. repeat split.
+Qed.
+Print Assumptions C05_sequential_substitution_refuted.
